@@ -69,7 +69,6 @@ package pipeline
 //verif:ensures[in-place-or-fresh] has(s.instances, pipelineID) ==> base(s.instances[pipelineID].ConnectorIDs) == old(base(s.instances[pipelineID].ConnectorIDs)) || fresh(s.instances[pipelineID].ConnectorIDs) || isnil(s.instances[pipelineID].ConnectorIDs)
 //verif:ensures[fails-only-if-unlisted-or-store-error] old(has(s.instances, pipelineID)) && (exists x in [0, old(len(s.instances[pipelineID].ConnectorIDs))): old(s.instances[pipelineID].ConnectorIDs[x]) == connectorID) && err != nil ==> called("(*Store).Set")
 //verif:modifies s.instances[pipelineID].ConnectorIDs[*], s.instances[pipelineID].ConnectorIDs, s.instances[pipelineID].UpdatedAt
-//verif:loop 0 invariant niter <= len(old(s.instances[pipelineID].ConnectorIDs)) && forall m in [0, niter): old(s.instances[pipelineID].ConnectorIDs[m]) != connectorID
 //verif:assume forall i :: has(s.instances, i) ==> base(s.instances[i].ConnectorIDs) != base(s.instances[i].ProcessorIDs) || isnil(s.instances[i].ConnectorIDs) because "the two id lists of an instance are separate allocations (built by append / JSON decoding), never sub-slices of one another"
 //verif:ensures[all-or-nothing-connectors] err != nil && has(s.instances, pipelineID) ==> sameConns(s, pipelineID)
 //verif:ensures[all-or-nothing-processors] err != nil && has(s.instances, pipelineID) ==> sameProcs(s, pipelineID)
@@ -81,7 +80,6 @@ package pipeline
 //verif:ensures[in-place-or-fresh] has(s.instances, pipelineID) ==> base(s.instances[pipelineID].ProcessorIDs) == old(base(s.instances[pipelineID].ProcessorIDs)) || fresh(s.instances[pipelineID].ProcessorIDs) || isnil(s.instances[pipelineID].ProcessorIDs)
 //verif:ensures[fails-only-if-unlisted-or-store-error] old(has(s.instances, pipelineID)) && (exists x in [0, old(len(s.instances[pipelineID].ProcessorIDs))): old(s.instances[pipelineID].ProcessorIDs[x]) == processorID) && err != nil ==> called("(*Store).Set")
 //verif:modifies s.instances[pipelineID].ProcessorIDs[*], s.instances[pipelineID].ProcessorIDs, s.instances[pipelineID].UpdatedAt
-//verif:loop 0 invariant niter <= len(old(s.instances[pipelineID].ProcessorIDs)) && forall m in [0, niter): old(s.instances[pipelineID].ProcessorIDs[m]) != processorID
 //verif:assume forall i :: has(s.instances, i) ==> base(s.instances[i].ConnectorIDs) != base(s.instances[i].ProcessorIDs) || isnil(s.instances[i].ConnectorIDs) because "the two id lists of an instance are separate allocations (built by append / JSON decoding), never sub-slices of one another"
 //verif:ensures[all-or-nothing-connectors] err != nil && has(s.instances, pipelineID) ==> sameConns(s, pipelineID)
 //verif:ensures[all-or-nothing-processors] err != nil && has(s.instances, pipelineID) ==> sameProcs(s, pipelineID)
